@@ -212,6 +212,9 @@ func checkC10(c *Ctx) error {
 			bad = "unclean-reject"
 		}
 		if bad != "" {
+			if !c.ConfirmBudget() {
+				continue
+			}
 			cli, err := c.ConfirmCLI(dirs[i])
 			if err != nil {
 				return err
